@@ -255,97 +255,171 @@ def r2_r4_orderedset(rep, src):
             rep.fail('C09.R2', fn.site, what, '; '.join(problems), where=fn.where)
         else:
             rep.ok('C09.R2', fn.site, what, '→ %s, table and list in tandem' % vals)
-    # iteration / membership / length read the right structure
-    t = {n: norm(m.method('OrderedSet', n).node) for n in ('__iter__', '__contains__', '__len__')}
-    if 'return iter(self.__order)' in t['__iter__'] and 'return item in self.__table' in t['__contains__'] and 'return len(self.__order)' in t['__len__']:
-        rep.ok('C09.R2', UT + ':OrderedSet', 'iteration follows the list, membership the table', 'ok', nontrivial=False)
+    # iteration / membership / length read the right structure (interpreted)
+    heap = new_heap(src)
+    oset, lst, table, nodes = build_set(heap, src, base)
+    it = H.Interp(heap)
+
+    def call(name, args):
+        fn = m.method('OrderedSet', name)
+        if fn is None:
+            raise AnalysisError('OrderedSet.%s not found' % name)
+        rep.saw_func(fn)
+        return it.call(H.Closure(fn.node, {}, oset, fn.cls), args)
+    got_iter = [getattr(x, 'spelling', x) for x in it.seq(call('__iter__', []))]
+    ok = got_iter == ['Alpha', 'Beta', 'Gamma'] and call('__contains__', [A2]) is True and call('__contains__', [Z]) is False and call('__len__', []) == 3
+    if ok:
+        rep.ok('C09.R2', UT + ':OrderedSet', 'iteration follows the list, membership the table', 'iter → %s, contains/len consistent' % got_iter)
     else:
-        rep.fail('C09.R2', UT + ':OrderedSet', 'iteration follows the list, membership the table', 'accessors do not read the list / table')
+        rep.fail('C09.R2', UT + ':OrderedSet', 'iteration follows the list, membership the table', 'iteration gives %s / membership or length disagree with the stored keys' % got_iter)
 
 
 def r1_key_normalisation(rep, src):
-    m = src.mod('deb822')
+    """Deb822Dict interpreted on a symbolic heap: the internal dictionary and the ordered key set (OrderedSet, real code
+    of _util) are keyed by case-insensitive keys; the caller passes plain strings in various spellings.  A plain
+    string meets a stored key only in its lower-cased spelling (as with the real hash/eq), so an access that forgets
+    the normalisation misses."""
+    mods = [src.mod('deb822'), src.mod(UT)]
+
+    def world():
+        def strI(it, args, kw):
+            a = args[0]
+            if isinstance(a, H.Key):
+                return a
+            return H.Key(a.lower(), a)
+
+        def to_str(it, args, kw):
+            return args[0].spelling if isinstance(args[0], H.Key) else args[0]
+        heap = H.Heap(mods[0], field_alias={'_previous_node': 'previous_node'}, extra_modules=[mods[1]],
+                      hooks={'_strI': strI, 'str': to_str, '.decode': lambda it, args, kw: args[1],
+                             'sorted': lambda it, args, kw: list(reversed(it.seq(args[0]))), 'default_field_sort_key': lambda it, args, kw: args[0]})
+        A, B = H.Key('alpha', 'Alpha'), H.Key('beta', 'Beta')
+        oset, lst, table, nodes = build_set(heap, src, [A, B])
+        d = heap.new_dict('@values')
+        heap.objs[d.name]['entries'] += [(A, 'v-alpha'), (B, 'v-beta')]
+        dec = heap.alloc('Decoder', {}, name='@decoder')
+        me = heap.alloc('Deb822Dict', {'_Deb822Dict__dict': d, '_Deb822Dict__keys': oset, '_Deb822Dict__parsed': None, 'decoder': dec, 'encoding': 'utf-8'}, name='@dict')
+        return heap, me, d, lst, table
+
+    def state(heap, d, lst, table, me):
+        oset = heap.objs[me.name]['_Deb822Dict__keys']
+        o = heap.objs[oset.name]
+        lst2, table2 = o['_OrderedSet__order'], o['_OrderedSet__table']
+        order, problems = set_state(heap, lst2, table2)
+        vals = {k.spelling if isinstance(k, H.Key) else k: v for k, v in heap.objs[heap.objs[me.name]['_Deb822Dict__dict'].name]['entries']}
+        return order, vals, problems
+
+    def run(mname, args):
+        heap, me, d, lst, table = world()
+        fn = heap.module.method('Deb822Dict', mname)
+        if fn is None:
+            raise AnalysisError('Deb822Dict.%s not found' % mname)
+        rep.saw_func(fn)
+        before = heap.snapshot()
+        try:
+            r = H.Interp(heap).call(H.Closure(fn.node, {}, me, fn.cls), args)
+            exc = None
+        except H.Raised as x:
+            r, exc = None, x.exc
+        return r, exc, state(heap, d, lst, table, me), heap.snapshot() == before, fn
+    V0 = {'Alpha': 'v-alpha', 'Beta': 'v-beta'}
+    cases = [
+        # method, args, want result, want exception, want key order, want values
+        ('__getitem__', ['ALPHA'], 'v-alpha', None, ['Alpha', 'Beta'], V0),
+        ('__getitem__', ['beta'], 'v-beta', None, ['Alpha', 'Beta'], V0),
+        ('__getitem__', ['Zeta'], None, 'KeyError', ['Alpha', 'Beta'], V0),
+        ('__contains__', ['aLPHa'], True, None, ['Alpha', 'Beta'], V0),
+        ('__contains__', ['Zeta'], False, None, ['Alpha', 'Beta'], V0),
+        ('__setitem__', ['ALPHA', 'new'], None, None, ['Alpha', 'Beta'], {'Alpha': 'new', 'Beta': 'v-beta'}),
+        ('__setitem__', ['Gamma', 'new'], None, None, ['Alpha', 'Beta', 'Gamma'], {'Alpha': 'v-alpha', 'Beta': 'v-beta', 'Gamma': 'new'}),
+        ('__delitem__', ['ALPHA'], None, None, ['Beta'], {'Beta': 'v-beta'}),
+        ('__delitem__', ['Zeta'], None, 'KeyError', ['Alpha', 'Beta'], V0),
+        ('__iter__', [], ['Alpha', 'Beta'], None, ['Alpha', 'Beta'], V0),
+        ('__len__', [], 2, None, ['Alpha', 'Beta'], V0),
+        ('order_last', ['ALPHA'], None, None, ['Beta', 'Alpha'], V0),
+        ('order_first', ['BETA'], None, None, ['Beta', 'Alpha'], V0),
+        ('order_before', ['BETA', 'alpha'], None, None, ['Beta', 'Alpha'], V0),
+        ('order_after', ['ALPHA', 'beta'], None, None, ['Beta', 'Alpha'], V0),
+        ('sort_fields', [None], None, None, ['Beta', 'Alpha'], V0),        # `sorted` is modelled as a fixed permutation (reversal)
+    ]
     n = 0
-    for q, fn in sorted(m.funcs.items()):
-        if not q.startswith('Deb822Dict.') or '.' in q[len('Deb822Dict.'):]:
-            continue
-        params = fn.params()[1:]
-        body = fn.node
-        # names holding a normalised key
-        normed = set()
-        for st in ast.walk(body):
-            if isinstance(st, ast.Assign) and isinstance(st.value, ast.Call) and norm(st.value.func) == '_strI' and isinstance(st.targets[0], ast.Name):
-                normed.add(st.targets[0].id)
-        for node in ast.walk(body):
-            key = None
-            where = None
-            if isinstance(node, ast.Subscript) and norm(node.value) in ('self.__dict', 'self.__parsed'):
-                key, where = node.slice, node
-            elif isinstance(node, ast.Compare) and len(node.ops) == 1 and isinstance(node.ops[0], (ast.In, ast.NotIn)) \
-                    and norm(node.comparators[0]) in ('self.__dict', 'self.__keys'):
-                key, where = node.left, node
-            elif isinstance(node, ast.Call) and isinstance(node.func, ast.Attribute) and norm(node.func.value) == 'self.__keys' \
-                    and node.func.attr in ('add', 'remove', 'order_last', 'order_first', 'order_before', 'order_after', 'append'):
-                for a in node.args:
-                    n += 1
-                    ok = (isinstance(a, ast.Call) and norm(a.func) == '_strI') or (isinstance(a, ast.Name) and a.id in normed)
-                    if ok:
-                        rep.ok('C09.R1', fn.site, norm(node)[:50], 'case-insensitive key', nontrivial=False)
-                    else:
-                        rep.fail('C09.R1', fn.site, norm(node)[:50], 'the key set is updated with the raw key `%s`: "Foo" and "FOO" become two entries / lookups miss'
-                                 % norm(a), where='%s:%d' % (fn.module.relpath, node.lineno))
-                continue
-            if key is None:
-                continue
-            if norm(where.value if isinstance(where, ast.Subscript) else where.comparators[0]) == 'self.__parsed':
-                continue
-            n += 1
-            ok = (isinstance(key, ast.Call) and norm(key.func) == '_strI') or (isinstance(key, ast.Name) and key.id in normed)
-            if ok:
-                rep.ok('C09.R1', fn.site, norm(where)[:50], 'case-insensitive key', nontrivial=False)
+    for mname, args, wr, wexc, worder, wvals in cases:
+        r, exc, (order, vals, problems), unchanged, fn = run(mname, args)
+        n += 1
+        what = 'Deb822Dict.%s(%s) on {Alpha, Beta}' % (mname, ', '.join(repr(a) for a in args))
+        rule = 'C09.R4' if wexc else ('C09.R2' if mname in ('__setitem__', '__delitem__', 'sort_fields') or mname.startswith('order_') else 'C09.R1')
+        if isinstance(r, H.Ref) and r.name in run.__globals__.get('_', {}):
+            pass
+        if wexc:
+            if exc != wexc:
+                rep.fail(rule, fn.site, what, 'the reference mapping raises %s, the code %s' % (wexc, 'raises ' + exc if exc else 'returns %r' % (r,)), where=fn.where)
+            elif not unchanged:
+                rep.fail(rule, fn.site, what, '%s is raised only after the mapping was modified (keys now %s, values %s): a failed operation must leave it unchanged'
+                         % (wexc, order, vals), where=fn.where)
             else:
-                rep.fail('C09.R1', fn.site, norm(where)[:50], 'the raw key `%s` is used on the internal dictionary/key set: lookups are no longer case-insensitive'
-                         % norm(key), where='%s:%d' % (fn.module.relpath, where.lineno))
-        _ = params
-    if n < 12:
-        raise AnalysisError('only %d key uses found in Deb822Dict' % n)
+                rep.ok(rule, fn.site, what, '%s before any mutation' % wexc)
+            continue
+        if exc is not None:
+            rep.fail(rule, fn.site, what, 'raises %s: the key is not found although the mapping holds it in another spelling (case-insensitive lookup lost)' % exc
+                     if exc == 'KeyError' else 'raises %s' % exc, where=fn.where)
+            continue
+        got = r
+        if isinstance(r, list):
+            got = [x.spelling if isinstance(x, H.Key) else x for x in r]
+        bad = []
+        if wr is not None and got != wr:
+            bad.append('returns %r instead of %r' % (got, wr))
+        if order != worder:
+            bad.append('the key order/spelling becomes %s instead of %s (first spelling and position are kept; new keys go last)' % (order, worder))
+        if vals != wvals:
+            bad.append('the stored values become %r instead of %r' % (vals, wvals))
+        bad += problems
+        if bad:
+            rep.fail(rule, fn.site, what, '; '.join(bad), where=fn.where)
+        else:
+            rep.ok(rule, fn.site, what, 'result %r, keys %s' % (got, order))
     rep.analysed['call_sites'] += n
-    # tandem updates in __setitem__ / __delitem__
-    s = src.func('deb822:Deb822Dict.__setitem__')
-    d = src.func('deb822:Deb822Dict.__delitem__')
-    st, dt = norm(s.node), norm(d.node)
-    if 'self.__keys.add(keyi)' in st and 'self.__dict[keyi] = value' in st:
-        rep.ok('C09.R2', s.site, 'assignment updates key set and dictionary', 'ok', nontrivial=False)
-    else:
-        rep.fail('C09.R2', s.site, 'assignment updates key set and dictionary', '__setitem__ does not add the key to the ordered key set and store the value', where=s.where)
-    body = [x for x in d.node.body if not (isinstance(x, ast.Expr) and isinstance(x.value, ast.Constant))]
-    idx_remove = [i for i, x in enumerate(body) if 'self.__keys.remove(keyi)' in norm(x)]
-    idx_del = [i for i, x in enumerate(body) if 'del self.__dict[keyi]' in norm(x)]
-    if idx_remove and idx_del and idx_remove[0] < idx_del[0]:
-        rep.ok('C09.R4', d.site, 'deleting a missing key raises before anything is removed', 'self.__keys.remove(keyi) (KeyError) comes first')
-    else:
-        rep.fail('C09.R4', d.site, 'deleting a missing key raises before anything is removed', '__delitem__ does not remove from the key set (raising KeyError) before touching the dictionary',
-                 where=d.where)
-    it = src.func('deb822:Deb822Dict.__iter__')
-    if 'for key in self.__keys:' in norm(it.node) and 'yield str(key)' in norm(it.node):
-        rep.ok('C09.R1', it.site, 'iteration yields the stored spelling in order', 'str(key) for key in the ordered key set', nontrivial=False)
-    else:
-        rep.fail('C09.R1', it.site, 'iteration yields the stored spelling in order', 'iteration does not yield str(key) over the ordered key set', where=it.where)
-    # case-insensitive string: hash and eq from the same lowered text, str() the original
+    # case-insensitive string: hash and equality from the same lower-cased text, str() gives the original
+    from .. import paths
     c = src.mod(UT)
-    hs, eq, st_ = (norm(c.method('_CaseInsensitiveString', x).node) for x in ('__hash__', '__eq__', '__str__'))
-    nw = norm(c.method('_CaseInsensitiveString', '__new__').node)
-    if 'return hash(self.str_lower)' in hs and 'return self.str_lower == other.lower()' in eq and 'return self.str_orig' in st_ \
-            and 's.str_lower = str_.lower()' in nw and 's.str_orig = str_' in nw:
-        rep.ok('C09.R1', UT + ':_CaseInsensitiveString', 'hash/eq on the lowered text, str() the original', 'ok')
+    cname = '_CaseInsensitiveString'
+
+    def ret_of(mname):
+        fn = c.method(cname, mname)
+        if fn is None:
+            raise AnalysisError('%s.%s not found' % (cname, mname))
+        ps = [p_ for p_ in paths.function_paths(fn.node) if p_.outcome[0] == 'return' and not any('__raised__' in norm(t) for t, _ in p_.conds)]
+        return fn, ps
+    fn_new, ps_new = ret_of('__new__')
+    stores = {}
+    for p_ in ps_new:
+        for e in p_.events:
+            if e[0] == 'store':
+                stores[e[1].split('.')[-1]] = norm(e[2])
+    arg = fn_new.params()[1]
+    lowered = [k for k, v in stores.items() if v == '%s.lower()' % arg]
+    original = [k for k, v in stores.items() if v == arg]
+    fn_h, ps_h = ret_of('__hash__')
+    fn_e, ps_e = ret_of('__eq__')
+    fn_s, ps_s = ret_of('__str__')
+    ok = bool(lowered) and bool(original)
+    why = 'the constructor does not keep the original and the lower-cased text'
+    if ok:
+        low, orig = 'self.' + lowered[0], 'self.' + original[0]
+        other = fn_e.params()[1]
+        hs = {norm(p_.outcome[1]) for p_ in ps_h}
+        es = {norm(p_.outcome[1]) for p_ in ps_e}
+        ss = {norm(p_.outcome[1]) for p_ in ps_s}
+        if not hs <= {'hash(%s)' % low, 'hash(self.lower())'}:
+            ok, why = False, 'the hash is computed from %s, not from the lower-cased text' % sorted(hs)
+        elif not es <= {'%s == %s.lower()' % (low, other), '%s.lower() == %s' % (other, low), 'self.lower() == %s.lower()' % other}:
+            ok, why = False, 'equality is %s, not a comparison of the lower-cased texts' % sorted(es)
+        elif not ss <= {orig}:
+            ok, why = False, 'str() returns %s, not the original spelling' % sorted(ss)
+    if ok:
+        rep.ok('C09.R1', UT + ':' + cname, 'hash/eq on the lowered text, str() the original', 'ok')
     else:
-        rep.fail('C09.R1', UT + ':_CaseInsensitiveString', 'hash/eq on the lowered text, str() the original',
-                 'hash and equality of the case-insensitive key are not both computed from the lower-cased text, or the original spelling is not kept')
-    sf = src.func('deb822:Deb822Dict.sort_fields')
-    if 'self.__keys = OrderedSet(sorted(self.__keys, key=key))' in norm(sf.node):
-        rep.ok('C09.R2', sf.site, 'sorting rebuilds the key set only', 'values untouched', nontrivial=False)
-    else:
-        rep.fail('C09.R2', sf.site, 'sorting rebuilds the key set only', 'sort_fields does not rebuild the ordered key set from its own keys', where=sf.where)
+        rep.fail('C09.R1', UT + ':' + cname, 'hash/eq on the lowered text, str() the original', why)
 
 
 def check(src, rep, tier):
@@ -356,7 +430,7 @@ def check(src, rep, tier):
                        'spelling kept, KeyError/ValueError raised with an unchanged heap.  AST rules: every Deb822Dict access to its internal '
                        'structures uses _strI(key); hash/eq of the case-insensitive string agree.')
     rep.not_decided = ['equality with the reference model over arbitrary histories (follows by induction, not executed)', 'copy and dump/parse cycles (C02)']
-    rep.need('C09.R1', 12)
+    rep.need('C09.R1', 6)
     rep.need('C09.R2', 12)
     rep.need('C09.R3', 40)
     rep.need('C09.R4', 9)
